@@ -65,6 +65,10 @@ type Document struct {
 	pointerCache sync.Map // map[string]Node
 
 	families FamilyNodes
+
+	// familiesMutex guards families when it is looked up from several
+	// goroutines.
+	familiesMutex sync.Mutex
 }
 
 // String will render the entire GEDCOM document.
@@ -133,11 +137,18 @@ func (doc *Document) NodeByPointer(ptr string) Node {
 
 // Families returns the family entities in the document.
 func (doc *Document) Families() (families FamilyNodes) {
+	doc.familiesMutex.Lock()
 	if doc.families != nil {
+		defer doc.familiesMutex.Unlock()
+
 		return doc.families
 	}
+	doc.familiesMutex.Unlock()
 
 	defer func() {
+		doc.familiesMutex.Lock()
+		defer doc.familiesMutex.Unlock()
+
 		doc.families = families
 	}()
 
